@@ -17,7 +17,8 @@ EXPLANATION = ("Socket streams: the protocol appends received data at the tail o
                "in that order; the read event is cleared exactly when the queue is empty; eof_received keeps the write side open; closed and "
                "broken streams refuse send before writing; both directions of both stream classes run inside their own ResourceGuard; the UNIX "
                "stream sends until the view is empty advancing by exactly the bytes sent, passes max_bytes to recv and maps errors by state; "
-               "except clauses are not shadowed (BlockingIOError before OSError).")
+               "except clauses are not shadowed (BlockingIOError before OSError)."
+               " A would-block waits for readiness in the direction of the blocked operation, and the two wait helpers register, unregister and record their own direction.")
 NOT_DECIDED = "Kernel socket buffers, asyncio transport internals, uvloop, ProactorEventLoop, real full-duplex timing."
 
 
